@@ -82,6 +82,8 @@ func (a *AVP) decodeFromBytes(data []byte, application uint32, dictionary *dict.
 		payload = data[12:]
 		hdrLength = 12
 	} else {
+		// Not left as it was: the receiver may have held another AVP.
+		a.VendorID = 0
 		payload = data[8:]
 		hdrLength = 8
 	}
